@@ -21,6 +21,16 @@ CLAIMED = {
          "The full pool x pool matrix of the six dot operators, u* built-ins, plain operators and sort is evaluated; all equivalence/order laws are checked on every pair and transitivity on every triple, plus agreement with a reference ordering.",
          "Trusts the reference equals/compare in mc/src/alpha.rs; values outside the 57/77-value pool are not explored.",
          "DESIGN.md §4 C12"),
+ "C13": ("exploration",
+         "bounded-exhaustive enumeration of (list, function) pairs; differential oracle between equivalent program forms in one session",
+         "Every list (all words of length <= 3/4 over a 6-value alphabet plus periodic extensions to 10) x a 32-function pool (all arity classes, closures, self- and mutually recursive named functions, built-ins, non-functions) is evaluated in both forms of each equivalence (via/map, where/filter, into/application, unrolled element+index calls, reduce/left fold, every/some vs folded predicate results) in the same session.",
+         "Equivalence is checked by differential evaluation (value equality or both fail); functions outside the pool and lists longer than 10 are not explored.",
+         "DESIGN.md §4 C13"),
+ "C14": ("exploration",
+         "bounded-exhaustive enumeration of lists, strings and records with harness-side reference implementations of every law",
+         "Every list of length <= 4/5 over mixed / stability / string / nested alphabets plus periodic extensions to 40, every string of length <= 2/3 over a 24-code-point alphabet, and every small record are bound in a session; ~40 law programs per subject are compared with reference values computed on the harness's own value type (sort permutation/order/stability, unique, reverse, concat/spread, chunk/flatten, head/tail, slice, zip, range, keys/values/entries, group_by/count_by, split/join, indexing, character-based string functions).",
+         "Trusts the reference list/string functions in mc/src/c14.rs (Rust std on Vec/char); inputs outside the alphabets and non-integer indices are not explored.",
+         "DESIGN.md §4 C14"),
  "C15": ("exploration",
          "exhaustive enumeration of number lists over a 9-value alphabet with harness-side reference computations",
          "Every number list of length 1..4/5 over a boundary alphabet (plus periodic extensions to 50) is run through all six aggregates in three calling conventions and percentile at 13 p values; results compared with reference computations and across all permutations.",
@@ -61,7 +71,7 @@ def main():
         "hooks": {
             "guard": "cargo feature `verif-hooks` on blots-core (off by default)",
             "enable": "mc depends on blots-core with features=[\"verif-hooks\"]; the CLI binary driven at process level is built without it",
-            "baseline_off_cmd": "cd /repo && cargo test --workspace --no-fail-fast --offline",
+            "baseline_off_cmd": "cd /repo && cargo test --workspace --no-fail-fast --offline </dev/null",
             "source_commits": hooks_commits,
             "add_only": True,
         },
